@@ -13,7 +13,8 @@
 (* Every finished run is printed as a case for replay into the real formatter.                                   *)
 EXTENDS Format, Json
 
-CONSTANTS Allowed, Indents, Margins, CodeMargins, ReplayIndent, CasePairs
+CONSTANTS Allowed, Indents, Margins, CodeMargins, ReplayIndent, CasePairs,
+          FormLimit     \* only Forms[1..FormLimit] are used (31 = all; the width-boundary run uses a few)
 
 T0 == <<>>
 W == <<[k |-> "ws", p |-> <<" ">>]>>
@@ -89,7 +90,7 @@ Put(s, g, tr) ==
 Variants(s, g, tr) == { [body |-> <<Nop, [Put(s, g, tr) EXCEPT !.lead = N1 \o @], Nop>>, eof |-> N1],
                         [body |-> <<Put(s, g, tr)>>, eof |-> T0] }
 Files == UNION { UNION { UNION { Variants(Forms[f], g, tr) : tr \in (IF IsMulti(Forms[f], g) THEN Multi ELSE Inline) }
-                         : g \in Gaps(Forms[f]) } : f \in 1..Len(Forms) }
+                         : g \in Gaps(Forms[f]) } : f \in 1..FormLimit }
 (* two statements sharing a source line (no newline in the gap between them), and `else` already on a line of its own *)
 Ident == St("insn", "lda", <<P("foo", "t", W)>>, <<>>, <<>>, T0)
 SameLineFiles == { [body |-> <<a, [b EXCEPT !.lead = W]>>, eof |-> N1] : a \in {Ident, Forms[12], Forms[6]}, b \in {Forms[1], Forms[12], Forms[4], Forms[6]} }
@@ -163,6 +164,10 @@ ElseStaysAttached ==
   (AtEnd /\ file \in ElseFiles) =>
      \/ \A n \in 1..(Len(js.res) - 1) : js.res[n] = "" => TrimStart(js.res[n + 1]) \notin {"else", "/* c */"}
      \/ "ElseOnNewLineGainsBlankLine" \in Allowed /\ opts.brace = "new"
+(* formatting is total over the configurations: no width derived from the options makes `format!` panic (C12 quantifies over
+   every formatter configuration; named deviation FormatWidthPanics, tolerated only where a width really exceeds MaxWidth) *)
+NeverPanics ==
+  ~js.panic \/ ("FormatWidthPanics" \in Allowed /\ (opts.lm + opts.cm > MaxWidth \/ opts.indent * 3 > MaxWidth))
 (* vacuity witnesses (expected to be violated) *)
 NeverDone == ~AtEnd
 NeverDropped == AtEnd => ~BodyHasDroppedComment(file.body)
